@@ -109,6 +109,7 @@ EditCalls ==
   \cup {[C("NodeMetaPut") EXCEPT !.n = n, !.name = "k2"] : n \in EN}
   \cup {[C("AttrPut") EXCEPT !.n = n, !.name = "beta"] : n \in EN}
   \cup {[C("AttrDel") EXCEPT !.n = n, !.name = "alpha"] : n \in EN}
+  \cup {[C("AttrUpdate2") EXCEPT !.n = n, !.name = "gamma", !.k = k2, !.flag = f] : n \in EN, k2 \in {"alpha", "delta"}, f \in BOOLEAN}
   \cup {[C("ReplaceInput") EXCEPT !.n = n, !.i = 0, !.v = v] : n \in EN, v \in EV \cup {0}}
   \cup {[C("ResizeOutputs") EXCEPT !.n = n, !.i = 2] : n \in EN}
   \cup {[C("GRemove") EXCEPT !.g = g, !.vs = <<n>>, !.flag = FALSE] : g \in G, n \in EN}
